@@ -804,7 +804,7 @@ def second_solver(smt2_text, timeout_s=30):
 
 
 GRID_NUM = [0.0, 1.0, 2.0, 0.5, 3.0, -1.0]
-GRID_ARR = [0.0, 1.0, 2.0, -1.0]
+GRID_ARR = [0.0, 1.0, 2.0, -1.0, 1.0 / 3]      # 1/3: not representable in single precision (a float32 detour is visible)
 
 
 def enumerate_witness(o, decls, seed=0, budget=6000, sizes=(1, 2, 3), stop_at_first=True, stats=None, vary_axes=False):
@@ -891,7 +891,32 @@ def enumerate_witness(o, decls, seed=0, budget=6000, sizes=(1, 2, 3), stop_at_fi
                 cands.append(vals)
         else:
             cands = [build(lambda xs: rnd.choice(xs)) for _ in range(per)]
-        for vals in cands:
+        # structured candidates first: constant arrays, arrays that differ by a constant offset, a spread on a large offset (where an
+        # algebraically equivalent rewrite cancels in floating point).  All values are exactly representable and chosen so that the
+        # textbook formulas are exact in double precision: rounding noise of correct code is not what this search is after (A1).
+        structured = []
+        float_arrays = [nm for nm, d in zip(names, domains) if d[0] == "array" and all(isinstance(v, float) for v in d[1]) and 0.0 in d[1] and 1.0 in d[1] and 2.0 in d[1]]
+        family = [("const", 0.0), ("const", 1.0), ("const", 1e8), ("alt", 0.0), ("alt", 1e8)]
+        if float_arrays:
+            if len(float_arrays) <= 2:
+                picks = list(itertools.product(family, repeat=len(float_arrays)))
+            else:
+                picks = [tuple(family[(a + b) % len(family)] for b in range(len(float_arrays))) for a in range(len(family))]
+            for pick in picks:
+                vals = {}
+                for nm, d in zip(names, domains):
+                    if d[0] == "scalar":
+                        vals[nm] = (rnd.random() < 0.3) if nm.startswith("bool:") else d[1][0]
+                    elif nm in float_arrays:
+                        kind, c = pick[float_arrays.index(nm)]
+                        k = int(_np.prod(d[2]))
+                        flat = [c + (0.0 if kind == "const" else (0.5 if i % 2 else -0.5)) for i in range(k)]
+                        vals[nm] = _np.array(flat, dtype=object).reshape(d[2]).tolist()
+                    else:
+                        k = int(_np.prod(d[2]))
+                        vals[nm] = _np.array([d[1][0]] * k, dtype=object).reshape(d[2]).tolist()
+                structured.append(vals)
+        for vals in structured + cands:
             tried += 1
             try:
                 rep = replay(o, vals)
